@@ -12,9 +12,14 @@
    The unfixed variants are kept beside them ([below_orig], [chan_set_fade_orig]) for the
    _refuted theorems.
 
-   RGBColor.blend truncates toward zero (int()): Z.quot.  The float ratio is exact when the fade
-   duration is 125 ms times a power of two (the domain of the correspondence run, see NOTES.md). *)
+   RGBColor.blend truncates toward zero (int()): Z.quot, on the exact rational ratio.  The float
+   ratio of the code is exact when the fade length is 125 ms times a power of two; for other lengths
+   the truncated product agrees with the exact one unless (end-start)*elapsed/length is an integer;
+   the correspondence run uses lengths for which that cannot happen (see NOTES.md).
+
+   The batch light system (platform_batch_light_system.py) is modelled in Batch.v. *)
 From Common Require Import Prelude.
+From C09 Require Batch.   (* the model of the batch light system: separate file, built with the model *)
 Open Scope Z_scope.
 
 Definition rgb := (Z * Z * Z)%type.
@@ -253,21 +258,49 @@ Definition chan_run (maxf interval now : Z) (ch : chan) : chan * list hwcmd :=
   end.
 
 (* ------------------------------------------------------------------------------------------ *)
-(* light kinds and channel mapping (Light._schedule_update, no gamma / colour correction) *)
+(* Light._get_color_and_fade(stack, max_fade_ms) -> (colour, fade_ms, done) for any max_fade_ms
+   (current_time = clock time; the recursive calls always use the clock time).  [col] is the
+   max_fade_ms = 0 instance (Lemmas.cfade_zero_is_col). *)
+Fixpoint cfade (st : list entry) (m now : Z) : rgb * Z * bool :=
+  match st with
+  | [] => (off, -1, true)
+  | e :: r =>
+      if (t1 e =? 0) || (t1 e <=? now) then
+        match c1 e with None => cfade r m now | Some c => (c, -1, true) end
+      else
+        let '(dest, m') := match c1 e with
+                           | Some c => (c, m)
+                           | None => let '(dc, lf, _) := cfade r m now in (dc, if lf >? 0 then lf else m)
+                           end in
+        let target := now + m' in
+        if target >? t1 e then (dest, t1 e - now, true)
+        else if target <=? t0 e then (start_of e, m', false)
+        else (blend (start_of e) dest (target - t0 e) (t1 e - t0 e), m', false)
+  end.
+
+(* ------------------------------------------------------------------------------------------ *)
+(* light kinds and channel mapping (Light._schedule_update) *)
 Definition min3 (c : rgb) : Z := let '(r, g, b) := c in Z.min r (Z.min g b).
+(* kinds: 0 RGB, 1 single white channel, 2 RGBW duck_rgb, 3 DriverLight (software fade), 4 direct fade,
+   6 RGB with a colour-correction profile, 7 RGBW white_only, 8 RGBW min_rgb *)
 Definition chan_map (kind : Z) (c : rgb) : list Z :=
   let '(r, g, b) := c in
-  if kind =? 0 then [r; g; b]                                   (* RGB *)
-  else if kind =? 2 then let m := min3 c in [r - m; g - m; b - m; m]   (* RGBW, duck_rgb *)
-  else [min3 c].                                                (* single white channel *)
+  if (kind =? 0) || (kind =? 6) then [r; g; b]
+  else if kind =? 2 then let m := min3 c in [r - m; g - m; b - m; m]
+  else if kind =? 7 then (if (r =? g) && (g =? b) then [0; 0; 0; r] else [r; g; b; 0])
+  else if kind =? 8 then [r; g; b; min3 c]
+  else [min3 c].
 
 (* kinds 3 (DriverLight: software fade, interval 125) and 4 (direct fade 250/250) have a channel model *)
 Definition kind_maxf (kind : Z) : Z := if kind =? 4 then 250 else 0.
 Definition kind_interval (kind : Z) : Z := if kind =? 4 then 250 else 125.
 Definition kind_has_chan (kind : Z) : bool := (kind =? 3) || (kind =? 4).
 
-Record state := mkS { ls : lstate; ch : chan }.
-Definition sinit : state := mkS linit None.
+(* hardware side of one light: the fade channel (kinds 3, 4), the last set_fade given to the drivers
+   (after brightness / colour correction), the brightness factor it was corrected with, the last
+   brightness the fade channel commanded *)
+Record state := mkS { ls : lstate; ch : chan; lcmd : option tgtT; cfac : Z; hwb : option Z }.
+Definition sinit : state := mkS linit None None 4 None.
 
 Definition feed_chan (kind now : Z) (c : chan) (cmds : list tgtT) : chan * list hwcmd :=
   fold_left (fun acc T =>
@@ -276,53 +309,108 @@ Definition feed_chan (kind now : Z) (c : chan) (cmds : list tgtT) : chan * list 
                (c', snd acc ++ out)) cmds (c, []).
 
 (* Light.gamma_correct with light_controller.brightness_factor = f4/4 (the "brightness" machine
-   variable: 0.25, 0.5, 0.75, 1.0): int(x * factor) per component; applied by _schedule_update to
-   the start and target colour of every command it sends (the comparison with _last_fade_target
-   is on the UNcorrected colours).  No colour-correction profile in the model. *)
+   variable: 0.25, 0.5, 0.75, 1.0): int(x * factor) per component; then Light.color_correct: the
+   profile's three lookup tables ([] = no profile).  Applied by _schedule_update to the start and
+   target colour of every command it sends (the comparison with _last_fade_target is on the
+   UNcorrected colours). *)
 Definition gam (f4 : Z) (c : rgb) : rgb :=
   let '(r, g, b) := c in (r * f4 / 4, g * f4 / 4, b * f4 / 4).
-Definition corr_T (f4 : Z) (T : tgtT) : tgtT :=
-  (gam f4 (tg_c0 T), tg_t0 T, gam f4 (tg_c1 T), tg_t1 T).
+Definition lut (tab : list (list Z)) (k : nat) (x : Z) : Z :=
+  nth (Z.to_nat x) (nth k tab []) 0.
+Definition cc (tab : list (list Z)) (c : rgb) : rgb :=
+  match tab with
+  | [] => c
+  | _ => let '(r, g, b) := c in (lut tab 0 r, lut tab 1 g, lut tab 2 b)
+  end.
+Definition corr (f4 : Z) (tab : list (list Z)) (c : rgb) : rgb := cc tab (gam f4 c).
+Definition corr_T (f4 : Z) (tab : list (list Z)) (T : tgtT) : tgtT :=
+  (corr f4 tab (tg_c0 T), tg_t0 T, corr f4 tab (tg_c1 T), tg_t1 T).
+Definition kind_tab (kind : Z) (tab : list (list Z)) : list (list Z) := if kind =? 6 then tab else [].
+
+Definition last_opt {A} (old : option A) (l : list A) : option A := fold_left (fun _ x => Some x) l old.
+
+Definition lfold (now : Z) (l : lstate) (ops : list op) : lstate * list tgtT :=
+  fold_left (fun acc o => let '(l1, c1) := lstep (fst acc) now o in (l1, snd acc ++ c1)) ops (l, []).
 
 (* a batch of ops at one instant (brightness factor f4/4), then the due task steps *)
-Definition run_ops (kind now f4 : Z) (s : state) (ops : list op) : state * list tgtT * list hwcmd :=
-  let '(l', cmds0) :=
-    fold_left (fun acc o => let '(l1, c1) := lstep (fst acc) now o in (l1, snd acc ++ c1)) ops (ls s, []) in
-  let cmds := map (corr_T f4) cmds0 in
+Definition run_ops (kind : Z) (tab : list (list Z)) (now f4 : Z) (s : state) (ops : list op)
+  : state * list tgtT * list hwcmd :=
+  let '(l', cmds0) := lfold now (ls s) ops in
+  let cmds := map (corr_T f4 (kind_tab kind tab)) cmds0 in
   let '(c1, h1) := if kind_has_chan kind then feed_chan kind now (ch s) cmds else (ch s, []) in
   let '(c2, h2) := if kind_has_chan kind then chan_run (kind_maxf kind) (kind_interval kind) now c1 else (c1, []) in
-  (mkS l' c2, cmds, h1 ++ h2).
+  (mkS l' c2 (last_opt (lcmd s) cmds) (if is_nil cmds0 then cfac s else f4) (last_opt (hwb s) (map fst (h1 ++ h2))),
+   cmds, h1 ++ h2).
 
-Record tick := mkTick { now_ : Z; fac_ : Z; fired : list Z; ops_ : list op }.
+(* VirtualLight.current_brightness (scaled by 255*1024, rounded) for one channel of the last command *)
+Definition vl_b (sb st tb te now : Z) : Z :=
+  if te >? now then
+    let den := te - st in
+    (2 * ((sb * den + (tb - sb) * (now - st)) * SC) + den) / (2 * den)
+  else tb * SC.
+
+Fixpoint map2 {A B C} (f : A -> B -> C) (a : list A) (b : list B) : list C :=
+  match a, b with x :: a', y :: b' => f x y :: map2 f a' b' | _, _ => [] end.
+
+(* what the hardware shows / was last told, per channel, scaled by 255*1024 *)
+Definition hw_now (kind : Z) (s : state) (now : Z) : list Z :=
+  if kind_has_chan kind then [match hwb s with Some b => b | None => 0 end]
+  else match lcmd s with
+       | None => map (fun _ => 0) (chan_map kind off)
+       | Some T => map2 (fun sb tb => vl_b sb (tg_t0 T) tb (tg_t1 T) now)
+                        (chan_map kind (tg_c0 T)) (chan_map kind (tg_c1 T))
+       end.
+
+(* one tick of the harness: the delays that fired since the last tick, grouped by the instant they fired
+   at (ascending, the last group may be at [now_]), the commands issued at [now_]; [mfs_]: the max_fade_ms
+   values for which _get_color_and_fade is sampled *)
+Record tick := mkTick { now_ : Z; fac_ : Z; fired : list (Z * list Z); ops_ : list op; mfs_ : list Z }.
 
 Definition enc_cmd (kind : Z) (T : tgtT) : list Z :=
   0 :: chan_map kind (tg_c0 T) ++ [tg_t0 T] ++ chan_map kind (tg_c1 T) ++ [tg_t1 T].
 Definition enc_hw (h : hwcmd) : list Z := [1; fst h; snd h].
 Definition enc_rgb (c : rgb) : list Z := let '(r, g, b) := c in [r; g; b].
+Definition enc_cfade (m : Z) (r : rgb * Z * bool) : list Z :=
+  let '(c, f, d) := r in 3 :: m :: enc_rgb c ++ [f; if d then 1 else 0].
 
 (* delays that are due but were not fired by the implementation, and fired ones that were not due *)
-Definition bad_fires (l : lstate) (now : Z) (fs : list Z) : Z :=
-  Z.of_nat (length (filter (fun k => negb (existsb (fun d => (fst d =? k) && (snd d =? now)) (delays l))) fs))
-  + Z.of_nat (length (filter (fun d => (snd d <=? now) && negb (existsb (Z.eqb (fst d)) fs)) (delays l))).
+Definition bad_fires (l : lstate) (now : Z) (fs : list (Z * list Z)) : Z :=
+  let flat := flat_map (fun g => map (fun k => (k, fst g)) (snd g)) fs in
+  Z.of_nat (length (filter (fun kt => negb (existsb (fun d => (fst d =? fst kt) && (snd d =? snd kt)) (delays l))) flat))
+  + Z.of_nat (length (filter (fun d => (snd d <=? now) && negb (existsb (fun kt => fst kt =? fst d) flat)) (delays l))).
 
-(* one 125 ms tick: timers (delays, in the observed order) -> task wake-ups -> colour sample ->
-   external ops -> first steps of new tasks -> colour sample *)
-Definition tick_step (kind : Z) (s : state) (tk : tick) : state * list (list Z) :=
+Definition run_fired (kind : Z) (tab : list (list Z)) (f4 : Z) (s : state) (fs : list (Z * list Z))
+  : state * list tgtT * list hwcmd :=
+  fold_left (fun acc g =>
+               let '(s0, cm0, hw0) := acc in
+               let '(s1, cm1, hw1) := run_ops kind tab (fst g) f4 s0 (map OFire (snd g)) in
+               (s1, cm0 ++ cm1, hw0 ++ hw1)) fs (s, [], []).
+
+(* one tick: timers (delays, in the observed order, at their own instants) -> task wake-ups -> colour
+   sample -> external ops -> first steps of new tasks -> colour sample, hardware sample *)
+Definition tick_step (kind : Z) (tab : list (list Z)) (s : state) (tk : tick) : state * list (list Z) :=
   let now := now_ tk in
   let bad := bad_fires (ls s) now (fired tk) in
-  let '(s1, cm1, hw1) := run_ops kind now (fac_ tk) s (map OFire (fired tk)) in
+  let '(s0, cm0, hw0) := run_fired kind tab (fac_ tk) s (fired tk) in
+  let '(s1, cm1, hw1) := run_ops kind tab now (fac_ tk) s0 [] in
   let pre := col (stack (ls s1)) now in
-  let '(s2, cm2, hw2) := run_ops kind now (fac_ tk) s1 (ops_ tk) in
+  let '(s2, cm2, hw2) := run_ops kind tab now (fac_ tk) s1 (ops_ tk) in
   let post := col (stack (ls s2)) now in
   (s2, (enc_rgb pre ++ enc_rgb post ++ [bad])
-         :: map (enc_cmd kind) (cm1 ++ cm2) ++ map enc_hw (hw1 ++ hw2)).
+         :: (2 :: hw_now kind s2 now)
+         :: map (fun m => enc_cfade m (cfade (stack (ls s2)) m now)) (mfs_ tk)
+         ++ map (enc_cmd kind) (cm0 ++ cm1 ++ cm2) ++ map enc_hw (hw0 ++ hw1 ++ hw2)).
 
-Fixpoint run_ticks (kind : Z) (s : state) (tks : list tick) : list (list (list Z)) :=
+Fixpoint run_ticks (kind : Z) (tab : list (list Z)) (s : state) (tks : list tick) : list (list (list Z)) :=
   match tks with
   | [] => []
-  | tk :: r => let '(s', o) := tick_step kind s tk in o :: run_ticks kind s' r
+  | tk :: r => let '(s', o) := tick_step kind tab s tk in o :: run_ticks kind tab s' r
   end.
 
-Definition run_case (inp : Z * list tick) : list (list (list Z)) :=
-  run_ticks (fst inp) sinit (snd inp).
+(* the state after the ticks (for the theorems) *)
+Definition run_state (kind : Z) (tab : list (list Z)) (s : state) (tks : list tick) : state :=
+  fold_left (fun s tk => fst (tick_step kind tab s tk)) tks s.
+
+Definition run_case (tab : list (list Z)) (inp : Z * list tick) : list (list (list Z)) :=
+  run_ticks (fst inp) tab sinit (snd inp).
 Definition case_out_eqb := zsss_eqb.
